@@ -267,8 +267,10 @@ def gen_fit(tier, seed):
         for bad in ("poisson_negative_data", "poisson_noninteger_data"):
             yield {"kind": "hist_poisson", "used": used, "call": bad}
             yield {"kind": "indexed_poisson", "used": used, "call": bad}
-    for bad in ("reserved_argument_name", "unknown_cost_function", "poisson_ctor_negative"):
+    for bad in ("reserved_argument_name", "unknown_cost_function", "poisson_ctor_negative", "reserved_name_in_model_function_object:xy", "reserved_name_in_model_function_object:indexed", "reserved_name_in_model_function_object:hist"):
         yield {"kind": "ctor", "used": False, "call": bad}
+    for bad in ("multi_disable_unknown", "multi_fix_unknown", "multi_set_unknown", "multi_constraint_unknown"):
+        yield {"kind": "multi", "used": False, "call": bad}
 
 
 @R.oracle("fit_rejects_and_is_unchanged", gen_fit, obligation="FitBase.")
@@ -277,6 +279,14 @@ def fit(inp):
         try:
             if inp["call"] == "reserved_argument_name":
                 XYFit([[1.0, 2.0], [1.0, 2.0]], lambda x, cost=1.0: x * cost)
+            elif inp["call"].startswith("reserved_name_in_model_function_object"):          # the model given as a ready-made model function object: same rule as for a plain function
+                which = inp["call"].split(":")[1]
+                if which == "xy":
+                    XYFit([[1.0, 2.0, 3.0], [1.0, 2.0, 3.1]], imp("kafe2.fit._base.model").ModelFunctionBase(lambda x, x_error=1.0: x * x_error))
+                elif which == "indexed":
+                    IndexedFit([1.0, 2.0, 3.0], imp("kafe2.fit.indexed.model").IndexedModelFunction(lambda total_error=1.0: total_error * np.ones(3)))
+                else:
+                    imp("kafe2").HistFit(HistContainer(4, (-2, 2), fill_data=[0.1, 0.3, -0.5, 1.1]), imp("kafe2.fit.histogram.model").HistModelFunction(lambda x, total_error=1.0: np.exp(-0.5 * x * x / total_error) / np.sqrt(2 * np.pi * total_error)))
             elif inp["call"] == "unknown_cost_function":
                 XYFit([[1.0, 2.0], [1.0, 2.0]], lin, cost_function="chi3")
             else:
@@ -284,6 +294,21 @@ def fit(inp):
             return {"got": "accepted", "expected": "exception", "witness_class": "accepted:" + inp["call"]}
         except Exception:
             return None
+    if inp["kind"] == "multi":          # the same calls on a multi-fit: an unknown name is refused there too, and no member is touched
+        MultiFit = imp("kafe2").MultiFit
+        m1, m2 = mk_fit("xy", False), mk_fit("xy", False)
+        mf = MultiFit([m1, m2])
+        before = (snap_fit(m1), snap_fit(m2), [list(map(float, mf.parameter_values)), sorted(mf._fitter.fixed_parameters), float(mf.cost_function_value)])
+        try:
+            {"multi_disable_unknown": lambda: mf.disable_error("nope"), "multi_fix_unknown": lambda: mf.fix_parameter("nope"), "multi_set_unknown": lambda: mf.set_parameter_values(nope=1.0),
+             "multi_constraint_unknown": lambda: mf.add_parameter_constraint("nope", 1.0, 0.1)}[inp["call"]]()
+            return {"got": "accepted", "expected": "exception", "witness_class": "accepted:" + inp["call"]}
+        except Exception:
+            pass
+        after = (snap_fit(m1), snap_fit(m2), [list(map(float, mf.parameter_values)), sorted(mf._fitter.fixed_parameters), float(mf.cost_function_value)])
+        if after != before:
+            return {"got": str(after)[:300], "expected": str(before)[:300], "witness_class": f"changed:{inp['call']}"}
+        return None
     f = mk_fit(inp["kind"], inp["used"])
     before = snap_fit(f)
     try:
